@@ -28,6 +28,8 @@ PREDS = {
     'lower1': lambda ch: len(ch.lower()) == 1,
     'islower': str.islower,                      # cased and lower
     'upperish': lambda ch: ch.isupper() or ch.istitle(),
+    'isupper': str.isupper,                      # cased and upper
+    'lowerish': lambda ch: ch.islower() or ch.istitle(),
     'word': lambda ch: ch.isalnum() or ch == '_',
     'surrogate': lambda ch: 0xD800 <= ord(ch) <= 0xDFFF,
     'surrescape': lambda ch: 0xDC80 <= ord(ch) <= 0xDCFF,
